@@ -202,6 +202,9 @@ carquet_status_t carquet_statistics_add_values(
     if (value_size == 0) {
         return CARQUET_ERROR_INVALID_ARGUMENT;  /* Use byte array API */
     }
+    if (value_size > sizeof(builder->min_value)) {
+        return CARQUET_ERROR_INVALID_ARGUMENT;  /* does not fit min/max storage */
+    }
 
     const uint8_t* data = (const uint8_t*)values;
 
